@@ -463,6 +463,17 @@ pub struct GenOpts {
     pub pm_tags: u64,
     /// restrict all reads to one reference (single-reference slices)
     pub single_ref_reads: bool,
+    /// "minimal" records: unplaced, unmapped, no name, no bases, no qualities, no tags (the
+    /// counterpart of the rich records for stale-state observation in reused readers/buffers)
+    pub pm_minimal: u64,
+    /// in unsorted streams, put one minimal record after every other record (rich -> minimal ->
+    /// rich adjacency) instead of leaving their places to chance
+    pub alternate_minimal: bool,
+    /// a pair with a mapped segment additionally gets a supplementary alignment of one segment
+    /// (same name, paired + first/last + supplementary, mate fields pointing at the other primary)
+    pub pm_supp_of_pair: u64,
+    /// per-mille probability that a single unmapped read is placed (has RNAME/POS)
+    pub pm_place_unmapped: u64,
 }
 
 impl Default for GenOpts {
@@ -486,6 +497,10 @@ impl Default for GenOpts {
             n_read_groups: 2,
             pm_tags: 700,
             single_ref_reads: false,
+            pm_minimal: 0,
+            alternate_minimal: false,
+            pm_supp_of_pair: 0,
+            pm_place_unmapped: 250,
         }
     }
 }
@@ -1067,6 +1082,62 @@ pub fn finalize_mates(reads: &mut [ReadDesc]) {
             reads[j].flags &= !F_PROPER;
         }
     }
+    // supplementary / secondary alignments of a segment of a pair point at the primary of the
+    // other segment (what aligners emit); TLEN 0
+    let primaries: std::collections::HashMap<(usize, u16), usize> = reads
+        .iter()
+        .enumerate()
+        .filter(|(_, r)| r.is_paired() && r.flags & (F_SECONDARY | F_SUPPLEMENTARY) == 0)
+        .map(|(i, r)| ((r.template, r.flags & (F_FIRST | F_LAST)), i))
+        .collect();
+    for i in 0..reads.len() {
+        let r = &reads[i];
+        if !(r.is_paired() && r.flags & (F_SECONDARY | F_SUPPLEMENTARY) != 0) {
+            continue;
+        }
+        let other = if r.flags & F_FIRST != 0 { F_LAST } else { F_FIRST };
+        let Some(&m) = primaries.get(&(r.template, other)) else { continue };
+        let m = reads[m].clone();
+        let r = &mut reads[i];
+        r.mate_ref = m.ref_id;
+        r.mate_pos = m.pos;
+        r.tlen = 0;
+        r.flags &= !(F_MATE_UNMAPPED | F_MATE_REVERSE | F_PROPER);
+        if m.is_unmapped() {
+            r.flags |= F_MATE_UNMAPPED;
+        }
+        if m.flags & F_REVERSE != 0 {
+            r.flags |= F_MATE_REVERSE;
+        }
+    }
+}
+
+/// A minimal record: flag 4 only, everything else missing.
+pub fn minimal_read() -> ReadDesc {
+    ReadDesc {
+        name: None,
+        flags: F_UNMAPPED,
+        ref_id: None,
+        pos: None,
+        mapq: None,
+        cigar: Vec::new(),
+        bases: Vec::new(),
+        quals: Vec::new(),
+        mate_ref: None,
+        mate_pos: None,
+        tlen: 0,
+        tags: Vec::new(),
+        edits: Vec::new(),
+        features: FeatureCounts::default(),
+        template: 0,
+        mate: None,
+    }
+}
+
+impl ReadDesc {
+    pub fn is_minimal(&self) -> bool {
+        self.name.is_none() && self.is_unmapped() && self.bases.is_empty() && self.tags.is_empty() && self.pos.is_none()
+    }
 }
 
 /// Generates a header + record stream.
@@ -1086,6 +1157,12 @@ pub fn gen_stream(rng: &mut Rng, o: &GenOpts) -> Stream {
 
     let mut templates: Vec<Vec<ReadDesc>> = Vec::new();
     for t in 0..o.n_templates {
+        if o.pm_minimal > 0 && rng.below(1000) < o.pm_minimal {
+            let mut m = minimal_read();
+            m.template = t;
+            templates.push(vec![m]);
+            continue;
+        }
         let r = rng.below(1000);
         let mut segs: Vec<ReadDesc> = Vec::new();
         if r < o.pm_pair {
@@ -1124,8 +1201,17 @@ pub fn gen_stream(rng: &mut Rng, o: &GenOpts) -> Stream {
             }
             segs.push(a);
             segs.push(b);
+            if o.pm_supp_of_pair > 0 && rng.below(1000) < o.pm_supp_of_pair {
+                if let Some(of) = segs.iter().find(|x| !x.is_unmapped()).map(|x| x.flags & (F_FIRST | F_LAST)) {
+                    let rid = pick_ref(rng);
+                    let p = rng.urange(1, refs[rid].seq.len());
+                    let mut sup = gen_mapped_read(rng, &refs, rid, p, o, exotic);
+                    sup.flags |= F_PAIRED | of | F_SUPPLEMENTARY;
+                    segs.push(sup);
+                }
+            }
         } else if r < o.pm_pair + o.pm_unmapped_single {
-            let place = if rng.chance(1, 4) {
+            let place = if rng.below(1000) < o.pm_place_unmapped {
                 let rid = pick_ref(rng);
                 let p = rng.urange(1, refs[rid].seq.len());
                 Some((rid, p))
@@ -1187,10 +1273,10 @@ pub fn gen_stream(rng: &mut Rng, o: &GenOpts) -> Stream {
         // adjacent mates or mates anywhere
         let mut later: Vec<ReadDesc> = Vec::new();
         for t in templates {
-            if t.len() == 2 && rng.below(1000) >= o.pm_mates_adjacent {
+            if t.len() >= 2 && rng.below(1000) >= o.pm_mates_adjacent {
                 let mut it = t.into_iter();
                 reads.push(it.next().unwrap());
-                later.push(it.next().unwrap());
+                later.extend(it);
             } else {
                 reads.extend(t);
             }
@@ -1198,6 +1284,18 @@ pub fn gen_stream(rng: &mut Rng, o: &GenOpts) -> Stream {
         for r in later {
             let at = rng.usize_below(reads.len() + 1);
             reads.insert(at, r);
+        }
+        if o.alternate_minimal {
+            let (mins, others): (Vec<ReadDesc>, Vec<ReadDesc>) = reads.into_iter().partition(|r| r.is_minimal());
+            let mut mins = mins.into_iter();
+            reads = Vec::new();
+            for r in others {
+                reads.push(r);
+                if let Some(m) = mins.next() {
+                    reads.push(m);
+                }
+            }
+            reads.extend(mins);
         }
     }
     finalize_mates(&mut reads);
